@@ -40,7 +40,7 @@ impl Machine {
         if m128 {
             pages.push_back(page.clone());
         }
-        emu.load_rom(VRomSet { pages }).expect("rom");
+        emu.load_rom(VRomSet { pages, chunk: 0 }).expect("rom");
         let fill = |emu: &mut Emu, from: u32| {
             for a in from..0x10000u32 {
                 emu.verif_bus_write(a as u16, base_mem(seed, a as u16));
@@ -194,7 +194,7 @@ fn runs(out: &mut Out, r: &mut Rng, count: u64, long: u64) {
         if m128 {
             pages.push_back(page.clone());
         }
-        emu.load_rom(VRomSet { pages }).expect("rom");
+        emu.load_rom(VRomSet { pages, chunk: 0 }).expect("rom");
         let halt_variant = ri % 3 == 2;
         let ei = halt_variant || ri % 3 == 1;
         let prog: &[u8] = if halt_variant {
@@ -243,7 +243,9 @@ fn runs(out: &mut Out, r: &mut Rng, count: u64, long: u64) {
         // host slicing: any partition of k_total into FrameCount(n) calls
         // ... with, in half of the runs, breakpoint stops every bp_k instructions in between: the host resumes until
         // the call's frames are reported complete
-        let bp_k = if r.chance(1, 2) { 0 } else { 1 + r.below(6000) };
+        // (k small in a third of them: with a stop after every instruction or two, one of the stops falls on the very
+        // instruction that crosses the frame end, where a frame is complete but not yet handed over)
+        let bp_k = if r.chance(1, 2) { 0 } else if r.chance(1, 3) { 1 + r.below(3) } else { 1 + r.below(6000) };
         emu.set_debug_interface(if bp_k == 0 { VDebug::Never } else { VDebug::Every { k: bp_k, n: 0 } });
         let mut left = k_total;
         let mut slicing = vec![];
